@@ -450,6 +450,24 @@ def r5_shape_to_mode(ctx: Ctx) -> None:
                   f"found {sorted((m, sorted(x)) for m, x in facts if m == mode)}")
     for mode, g in sorted(facts - want_facts, key=repr):
         ctx.fail(f"shape:{mode}<-{sorted(g)}", f"operand shape {sorted(g)} selects {mode}, which is not the 65c816 syntax for it")
+    # (b') the back-track arm: `(expr) <operator> ...` is re-read as a plain expression FROM WHERE THE OPERAND STARTED
+    for t in [n for n in walk_no_nested(poa.node) if isinstance(n, ast.Try)]:
+        for h in t.handlers:
+            if "SyntaxError" not in unparse(h.type or ast.Constant(None)):
+                continue
+            ctx.count("backtrack_arms")
+            restores = [i for i, st in enumerate(h.body) if isinstance(st, ast.Assign) and unparse(st.targets[0]) == "p.pos"]
+            parses = [i for i, st in enumerate(h.body) if isinstance(st, ast.Assign) and isinstance(st.value, ast.Call) and call_name(st.value) == "parse_expression"]
+            if not restores and not parses and h.body:
+                raise AnalysisError("parse_operand_and_addressing: back-track arm not modelled")
+            snap_ok = False
+            if restores:
+                v = unparse(h.body[restores[0]].value)
+                snap_ok = any(isinstance(st, ast.Assign) and unparse(st.targets[0]) == v and unparse(st.value) == "p.pos" for st in walk_no_nested(poa.node))
+            ctx.check(bool(restores) and bool(parses) and restores[0] < parses[0] and snap_ok, "parse_operand_and_addressing:backtrack",
+                      "the handler puts the token position back to the snapshot taken before the parenthesis and only then re-parses the operand as an expression")
+            ctx.check(bool(parses) and unparse(h.body[parses[0]].targets[0]) == "operand", "parse_operand_and_addressing:backtrack-operand",
+                      "the re-parsed expression becomes the operand")
     # (c) no index component is dropped silently
     po = ctx.repo.func(PSTATES, "parse_opcode")
     ctor = calls_in(po.node, "OpcodeAstNode")
@@ -741,5 +759,12 @@ def rm_no_process_lifetime_results(ctx: Ctx) -> None:
     state_rule(ctx)
 
 
+def ru_names_bound(ctx: Ctx) -> None:
+    """a local read but never bound raises NameError for every input that reaches the statement (shared rule, names.py)"""
+    from ..names import names_rule
+
+    names_rule(ctx)
+
+
 RULES = [r1_table_subset_of_isa, r2_supported_set_kept, r3_operand_packing, r4_width_selection, r5_shape_to_mode,
-         r6_rejection_discipline, r7_field_plumbing, r8_lexer_token_facts, rb_binding_agreement, rm_no_process_lifetime_results]
+         r6_rejection_discipline, r7_field_plumbing, r8_lexer_token_facts, rb_binding_agreement, rm_no_process_lifetime_results, ru_names_bound]
